@@ -172,6 +172,10 @@ Theorem split_chunk_independent k cs cs' : concat cs = concat cs' ->
   nfeed_all (NWait [] (S k)) cs = nfeed_all (NWait [] (S k)) cs'.
 Proof. intros E. rewrite !nfeed_all_concat by apply init_stable. rewrite E. reflexivity. Qed.
 
+(* C13: feeding packet by packet from a fresh object equals feeding the whole stream at once *)
+Theorem split_incremental_is_whole k cs : nfeed_all (NWait [] (S k)) cs = nfeed (NWait [] (S k)) (concat cs).
+Proof. apply nfeed_all_concat. apply init_stable. Qed.
+
 End Proofs.
 
 (* ------------------------------------------------------------------------------------------------------------ *)
